@@ -660,10 +660,26 @@ class Machine:
             if v is None or not lo <= v < hi or (ty.startswith("u") and a0.startswith("-")):
                 return err(("error-token", "ParseIntError"))
             return ok(v)
+        if end in ("try_from", "try_into") and tt is not None and len(a) == 1:
+            gens = [str(x) for x in ((tt.get("fn") or {}).get("generics") or [])]
+            if len(gens) == 2 and gens[0] in PRIM_INTS and gens[1] in PRIM_INTS and isinstance(a0, int) and not isinstance(a0, bool):
+                dst = gens[0] if end == "try_from" else gens[1]
+                lo_, hi_ = PRIM_INTS[dst]
+                return ok(a0) if lo_ <= a0 <= hi_ else err(("error-token", "TryFromIntError"))
         if "core::num::<impl " in c or "std::num::<impl " in c:
             r = self._int_model(c, end, a)
             if r is not NOT:
                 return r
+        if end in ("repeat", "repeat_with") and ("iter::sources::" in c or c.startswith("std::iter::repeat")) and len(a) == 1:
+            # an endless source: only ever consumed through a bounding adaptor (take / take_while / zip / map_while)
+            def _forever(v=a0, with_=(end == "repeat_with")):
+                n_ = 0
+                while True:
+                    n_ += 1
+                    if n_ > 10000:
+                        raise Stuck("an endless iterator is consumed without a bound")
+                    yield (self.call_value(v, []) if with_ else v)
+            return LazyIter(_forever())
         if "borrow::Cow" in c and end in ("deref", "as_ref", "borrow", "into_owned", "to_mut"):
             # Cow::Borrowed(x) / Cow::Owned(x): references are transparent, both stand for x
             v0 = absint.deref(a0)
@@ -689,10 +705,27 @@ class Machine:
              "String::as_str", "str>::to_string", "str>::to_owned", "String::as_mut_str", "std::mem::take_placeholder") or \
                 (end == "clone" and ("Clone" in c or "clone::impls" in c)) or \
                 (end in ("into", "from") and len(a) == 1 and ("convert::Into" in c or "convert::From" in c)):
+            if end in ("into", "from") and tt is not None:
+                # `impl From<T> for Option<T>`: t.into() is Some(t)
+                gens = [str(x) for x in (self.subst_generics((tt.get("fn") or {}).get("generics")) or []) if not str(x).startswith("'")]
+                if len(gens) == 2:
+                    src_, dst_ = (gens[0], gens[1]) if end == "into" else (gens[1], gens[0])
+                    if dst_.startswith("std::option::Option<") and not src_.startswith("std::option::Option<") and dst_ == "std::option::Option<%s>" % src_:
+                        return some(a0)
             return a0
         if m("Option::as_ref", "Option<T>::as_ref", "Option::as_mut", "Option<T>::as_mut", "Option::as_deref", "Option<T>::as_deref",
              "Option::cloned", "Option<T>::cloned", "Option<&T>::cloned", "Option::copied", "Option<&T>::copied", "Option<T>::copied",
              "Option::as_deref_mut"):
+            return a0
+        if end in ("from_u32", "from_digit") and ("char::" in c) and isinstance(a0, int) and not isinstance(a0, bool):
+            if end == "from_u32":
+                # Unicode scalar values only: the surrogate range and everything above 0x10FFFF is None
+                return some(a0) if (0 <= a0 < 0xD800 or 0xE000 <= a0 <= 0x10FFFF) else none()
+            if len(a) > 1 and isinstance(a[1], int):
+                if a[1] > 36:
+                    raise Stuck("char::from_digit with a radix above 36 panics")
+                return some(ord("0123456789abcdefghijklmnopqrstuvwxyz"[a0])) if 0 <= a0 < a[1] else none()
+        if end == "from_u32_unchecked" and "char::" in c and isinstance(a0, int):
             return a0
         if "<impl char>" in c and isinstance(a0, int) and not isinstance(a0, bool) and end.startswith(("is_", "to_", "eq_ignore")):
             ch = chr(a0)
@@ -787,6 +820,19 @@ class Machine:
                 if isinstance(pat, str) and pat and isinstance(a[2], str):
                     return a0.replace(pat, a[2]) if end == "replace" else (a0.replace(pat, a[2], a[3]) if len(a) > 3 and isinstance(a[3], int) else UNKNOWN)
                 return UNKNOWN
+            if end in ("strip_prefix", "strip_suffix") and len(a) > 1:
+                pat = chr(a[1]) if isinstance(a[1], int) and not isinstance(a[1], bool) else a[1]
+                if isinstance(pat, str):
+                    if end == "strip_prefix":
+                        return some(a0[len(pat):]) if a0.startswith(pat) else none()
+                    return some(a0[:len(a0) - len(pat)]) if a0.endswith(pat) else none()
+                return UNKNOWN
+            if end == "split_once" and len(a) > 1:
+                pat = chr(a[1]) if isinstance(a[1], int) and not isinstance(a[1], bool) else a[1]
+                if isinstance(pat, str) and pat:
+                    i = a0.find(pat)
+                    return some([a0[:i], a0[i + len(pat):]]) if i >= 0 else none()
+                return UNKNOWN
             if end == "is_empty":
                 return a0 == ""
             if end == "len":
@@ -847,7 +893,7 @@ class Machine:
             if end == "unwrap_or_else":
                 return x if is_some else self.call_value(a[1], [])
             if end == "unwrap_or_default":
-                return x if is_some else UNKNOWN
+                return x if is_some else _default_of_type((((tt or {}).get("fn") or {}).get("generics") or [""])[0])
             if end == "map_or":
                 return self.call_value(a[2], [x]) if is_some else a[1]
             if end == "map_or_else":
@@ -918,6 +964,8 @@ class Machine:
                 return not is_ok
             if end == "unwrap_or":
                 return x if is_ok else a[1]
+            if end == "unwrap_or_default":
+                return x if is_ok else _default_of_type((((tt or {}).get("fn") or {}).get("generics") or [""])[0])
             if end == "unwrap_or_else":
                 return x if is_ok else self.call_value(a[1], [x])
             if end in ("unwrap", "expect"):
@@ -1714,8 +1762,27 @@ class FnItem:
 
 
 OPTION_METHODS = {"transpose", "map", "and_then", "ok_or", "ok_or_else", "unwrap_or", "unwrap_or_else", "map_or", "map_or_else", "is_some",
-                  "is_none", "or", "or_else", "filter", "unwrap", "expect", "take", "replace"}
+                  "is_none", "or", "or_else", "filter", "unwrap", "expect", "take", "replace", "unwrap_or_default"}
 RESULT_METHODS = {"transpose", "map", "map_err", "and_then", "or_else", "ok", "err", "is_ok", "is_err", "unwrap_or", "unwrap_or_else", "unwrap",
-                  "expect"}
+                  "expect", "unwrap_or_default"}
+PRIM_INTS = {"i8": (-2 ** 7, 2 ** 7 - 1), "i16": (-2 ** 15, 2 ** 15 - 1), "i32": (-2 ** 31, 2 ** 31 - 1), "i64": (-2 ** 63, 2 ** 63 - 1),
+             "isize": (-2 ** 63, 2 ** 63 - 1), "i128": (-2 ** 127, 2 ** 127 - 1), "u8": (0, 2 ** 8 - 1), "u16": (0, 2 ** 16 - 1), "u32": (0, 2 ** 32 - 1),
+             "u64": (0, 2 ** 64 - 1), "usize": (0, 2 ** 64 - 1), "u128": (0, 2 ** 128 - 1)}
+
+
+def _default_of_type(ty):
+    """Default::default() of a type named in a call's generic arguments (primitives and the std containers)"""
+    ty = str(ty or "").strip()
+    if ty in PRIM_INTS:
+        return 0
+    if ty == "bool":
+        return False
+    if ty in ("std::string::String", "&str", "String"):
+        return ""
+    if ty.startswith("std::vec::Vec<") or ty.startswith("smallvec::SmallVec<"):
+        return []
+    if ty.startswith("std::option::Option<"):
+        return none()
+    return UNKNOWN
 ITER_METHODS = {"map", "filter", "filter_map", "map_while", "take_while", "flatten", "flat_map", "all_equal", "enumerate", "rev", "skip", "take", "zip", "chain", "collect", "count", "last",
                 "for_each", "fold", "try_fold", "try_for_each", "any", "all", "find", "position", "find_map", "next", "next_back", "nth", "nth_back"}
